@@ -19,19 +19,20 @@
    acceptance, and its value (through Literal.value_of) with Go's value.  The
    result lists (case index, kind) for every disagreement:
      1  invalid-utf8-in-string   Go accepts, not a JSON text, input is not valid UTF-8
+                                 (fixed in /repo 0784545: must not occur any more)
      2  accepts-non-json         Go accepts, not a JSON text (any other reason)
-     3  rejects-valid-json       Go rejects a JSON text (any other reason)
-     4  rejects-valid-json-grapheme-prepend
-                                 Go rejects a JSON text that contains a GCB=Prepend
-                                 code point (scanString swallows the next byte)
+     3  rejects-valid-json       Go rejects a JSON text (any other reason; this
+                                 includes the former kind 4, grapheme-prepend,
+                                 fixed in /repo 97334cf)
      5  rejects-valid-json-number-exponent
                                  Go rejects a JSON text one of whose numbers
-                                 big.ParseFloat refuses (exponent out of range)
+                                 big.ParseFloat refuses (exponent out of range);
+                                 known finding of a pinned dependency
      6  literal-mapping-differs-from-reference
                                  both accept, but Go's Value(nil) is not the
                                  spec mapping of the reference's value
-   Case files print it as [strict]; bin/check treats every entry as a
-   direct-oracle failure of that Kind. *)
+   Case files print it as [strict] : list (Z * Z); bin/check treats every entry
+   as a direct-oracle failure of that Kind. *)
 From Coq Require Import String Ascii.
 From HclV Require Import Base.Prelude Json.Rfc8259 Json.Scanner Json.Parser Json.Literal.
 Open Scope Z_scope.
@@ -145,7 +146,7 @@ Definition strict_kind (c : jcase) : Z :=
   match json_text_dec bs, go_ok with
   | None, false => 0
   | None, true => if utf8_valid bs then 2 else 1
-  | Some _, false => if has_prepend bs then 4 else if has_bad_exponent bs then 5 else 3
+  | Some _, false => if has_bad_exponent bs then 5 else 3
   | Some v, true =>
       match value_of v with
       | LError => if c_everr c then 0 else 6
